@@ -4,14 +4,18 @@ From RV Require Import Base.Text Model.Sel Model.SelFmt Model.SelAlg Model.SelPa
 Import ListNotations.
 Local Open Scope list_scope.
 
-(* c_src: the selector list with the SOURCE spelling of every name.  From the rule `T { p1: &; ... }`:
-   c_p1 = `&` printed (the parsed selector of the rule as a value), c_p2 = selector.parse(&) printed,
-   c_s1 = is-superselector(&, selector.parse(&)), c_s2 = the reverse  (0 false, 1 true, 2 error / not run),
-   c_emit = the selector text emitted for the rule.
-   From `selector.parse("T")` (only for T without backslashes, whose quoted-string form is unambiguous):
-   c_a1 = its printed form, c_as1 = is-superselector(selector.parse("T"), "T"), c_as2 = the reverse. *)
+(* c_src: the selector list with the SOURCE spelling of every name (text T).
+   Function route, `$t: unquote("T")` (checked to print as T), each item in its own program:
+     c_a1 = selector.parse($t) printed, c_as1 = is-superselector(selector.parse($t), $t), c_as2 = the reverse,
+     c_a2 = selector.parse(selector.parse($t)) printed, c_a2st = status of that program (0 ok, 1 error, 2 panic).
+   Rule route `T { p1: &; ... }` (c_rule = it was run; only for spellings that the SCSS-level and the CSS-level
+   parser read alike):
+     c_p1 = `&` printed, c_p2 = selector.parse(&) printed, c_s1 / c_s2 = is-superselector(&, selector.parse(&)) and
+     reverse, c_emit = the selector text emitted for the rule.
+   flags: 0 false, 1 true, 2 error / not run *)
 Record case := mkCase { c_src : sels; c_p1 : option text; c_p2 : option text; c_s1 : N; c_s2 : N; c_emit : option text;
-                        c_a1 : option text; c_as1 : N; c_as2 : N }.
+                        c_a1 : option text; c_as1 : N; c_as2 : N;
+                        c_a2 : option text; c_a2st : N; c_rule : bool }.
 
 Definition model_text (c : case) : option text :=
   match norm_sels (c_src c) with
@@ -21,7 +25,9 @@ Definition model_text (c : case) : option text :=
 
 Definition otext_eqb (a b : option text) : bool := opt_eqb text_eqb a b.
 
-Definition corr (c : case) : Z := if otext_eqb (model_text c) (c_p1 c) then 1%Z else 0%Z.
+(* the model answers for selector.parse (function route); the rule route must agree where it is run *)
+Definition corr (c : case) : Z :=
+  if otext_eqb (model_text c) (c_a1 c) && (negb (c_rule c) || otext_eqb (model_text c) (c_p1 c)) then 1%Z else 0%Z.
 
 (* a class whose parsed name starts with an ASCII digit is printed with that digit escaped, and the
    escaped spelling parses to a different name *)
@@ -50,7 +56,8 @@ Definition is_some_text (o : option text) : bool := match o with Some _ => true 
 
 (* clause 1: the printed form is a fixpoint of parse-then-print *)
 Definition clause_text_fixpoint (c : case) : bool :=
-  negb (is_some_text (c_p1 c)) || otext_eqb (c_p1 c) (c_p2 c).
+  (negb (is_some_text (c_p1 c)) || otext_eqb (c_p1 c) (c_p2 c))
+  && (negb (is_some_text (c_a1 c)) || (N.eqb (c_a2st c) 0 && otext_eqb (c_a1 c) (c_a2 c))).
 (* clause 2: parsing the printed form gives the same selector list (observed through is-superselector both ways) *)
 Definition clause_same_list (c : case) : bool :=
   (negb (is_some_text (c_p1 c)) || (N.eqb (c_s1 c) 1 && N.eqb (c_s2 c) 1))
@@ -58,9 +65,9 @@ Definition clause_same_list (c : case) : bool :=
 (* clause 3: the emitted selector is the printed form of selector.parse *)
 Definition clause_emitted (c : case) : bool :=
   (negb (is_some_text (c_p1 c)) || otext_eqb (c_p1 c) (c_emit c))
-  && (negb (is_some_text (c_a1 c)) || otext_eqb (c_a1 c) (c_emit c)).
+  && (negb (is_some_text (c_a1 c)) || negb (c_rule c) || otext_eqb (c_a1 c) (c_emit c)).
 
 Definition b2z (b : bool) : Z := if b then 1%Z else 0%Z.
 Definition run (c : case) : list Z :=
   [corr c; b2z (clause_text_fixpoint c); b2z (clause_same_list c); b2z (clause_emitted c);
-   b2z (existsb dc_sel (c_src c)); b2z (is_some_text (c_p1 c)); b2z (existsb comb_sel (c_src c))].
+   b2z (existsb dc_sel (c_src c)); b2z (is_some_text (c_a1 c)); b2z (existsb comb_sel (c_src c))].
